@@ -679,4 +679,488 @@ theorem attempt_ok_anatomy {v : Variant} {cfg : Cfg} {w w' : World}
     simp at ht
     exact absurd ht.symm hne
 
+/-- Any event predicate that covers the alphabets of the pieces holds of every event of `obtainM`. -/
+theorem AllEv.obtainM (Q : Ev → Prop) (v : Variant) (cfg : Cfg) (h1 : ∀ e, APrep e → Q e)
+    (h2 : ∀ k n e, AFetch v k n e → Q e) (h3 : ∀ k, Q (.keygen k)) (h4 : ∀ k, Q (.readKey k))
+    (h5 : ∀ s r, Q (.exch .certDownload .kid s r)) : Sat (TR (AllEv Q)) (obtainM v cfg) := by
+  have L := (AllEv.tlaw Q).law
+  have p1 : Sat (TR (AllEv Q)) (prepareM v cfg) := AllEv.mono h1 (APrep.prepareM v cfg)
+  have p2 : Sat (TR (AllEv Q)) (getKeyPair cfg) := by
+    unfold Flow.getKeyPair genKey
+    walk [] [AllEv.emit Q, AllEv.freshKey Q] L
+    · exact h4 _
+    · exact h3 _
+    · exact h3 _
+  have p3 : ∀ k n, Sat (TR (AllEv Q)) (fetchPre v k n) :=
+    fun k n => AllEv.mono (h2 k n) (AFetch.fetchPre v k n)
+  have p4 : Sat (TR (AllEv Q)) downloadCert := by
+    unfold Flow.downloadCert
+    walk [] [AllEv.exchange Q] L
+    exact h5 _ _
+  have p5 : ∀ k cb, Sat (TR (AllEv Q)) (checkBody v k cb) := by
+    intro k cb
+    unfold Flow.checkBody
+    walk [] [] L
+  unfold Flow.obtainM
+  walk [p1, p2, p3, p4, p5] [] L
+
+/-! ### Counting exchanges (C07 `attempt_bounded`) -/
+
+def isExch : Ev → Bool
+  | .exch .. => true
+  | _ => false
+
+def exCount (es : List Ev) : Nat := es.countP isExch
+
+@[simp] theorem exCount_nil : exCount [] = 0 := rfl
+@[simp] theorem exCount_append (a b : List Ev) : exCount (a ++ b) = exCount a + exCount b :=
+  List.countP_append
+
+/-- Size constraints on the bodies the CA may serve: an order lists at most `A` authorisations, an
+authorisation offers at most `c` challenges (of known type). -/
+def SizeOk (A c : Nat) : ExRes → Prop
+  | .ok (.order o) => o.authzs.length ≤ A
+  | .ok (.authz b) => b.challenges.length ≤ c
+  | _ => True
+
+def Inv (A c : Nat) (w : World) : Prop := ∀ r ∈ w.exs, SizeOk A c r
+
+/-- Under the size invariant: `m` keeps it, emits at most `n` exchanges, and a returned value
+satisfies `Q`. -/
+structure SatB (A c n : Nat) (Q : α → Prop) (m : M α) : Prop where
+  run : ∀ w, Inv A c w → Inv A c (m w).2 ∧
+    (∃ es, (m w).2.trace = w.trace ++ es ∧ exCount es ≤ n) ∧ ∀ a, (m w).1 = .val a → Q a
+
+abbrev T {α : Type} : α → Prop := fun _ => True
+
+theorem SatB.le {A c n n' : Nat} {Q : α → Prop} {m : M α} (h : SatB A c n Q m) (hn : n ≤ n') :
+    SatB A c n' Q m :=
+  ⟨fun w hi => by
+    obtain ⟨h1, ⟨es, he, hc⟩, h3⟩ := h.run w hi
+    exact ⟨h1, ⟨es, he, Nat.le_trans hc hn⟩, h3⟩⟩
+
+theorem SatB.weaken {A c n : Nat} {Q : α → Prop} {m : M α} (h : SatB A c n Q m) :
+    SatB A c n T m :=
+  ⟨fun w hi => by
+    obtain ⟨h1, h2, _⟩ := h.run w hi
+    exact ⟨h1, h2, fun _ _ => trivial⟩⟩
+
+theorem SatB.pure {A c : Nat} (a : α) : SatB A c 0 T (pure a : M α) :=
+  ⟨fun w hi => ⟨hi, ⟨[], by simp [pure_run], by simp⟩, fun _ _ => trivial⟩⟩
+
+theorem SatB.pureQ {A c : Nat} {Q : α → Prop} (a : α) (h : Q a) :
+    SatB A c 0 Q (Pure.pure a : M α) :=
+  ⟨fun w hi => ⟨hi, ⟨[], by simp [pure_run], by simp⟩, fun b hb => by
+    simp only [pure_run, Out.val.injEq] at hb; rw [← hb]; exact h⟩⟩
+
+theorem SatB.failAt {A c : Nat} {Q : α → Prop} (s : Step) : SatB A c 0 Q (failAt s : M α) :=
+  ⟨fun w hi => ⟨hi, ⟨[], by simp [Flow.failAt], by simp⟩, fun _ hb => by simp [Flow.failAt] at hb⟩⟩
+
+theorem SatB.getW {A c : Nat} : SatB A c 0 T getW :=
+  ⟨fun w hi => ⟨hi, ⟨[], by simp [Flow.getW], by simp⟩, fun _ _ => trivial⟩⟩
+
+theorem SatB.emit {A c : Nat} (e : Ev) (h : isExch e = false) : SatB A c 0 T (emit e) :=
+  ⟨fun w hi => ⟨hi, ⟨[e], rfl, by simp [exCount, h]⟩, fun _ _ => trivial⟩⟩
+
+theorem SatB.modAcc {A c : Nat} (f : Acc → Acc) : SatB A c 0 T (modAcc f) :=
+  ⟨fun w hi => ⟨hi, ⟨[], by simp [Flow.modAcc], by simp⟩, fun _ _ => trivial⟩⟩
+
+theorem SatB.modFiles {A c : Nat} (f : Files → Files) : SatB A c 0 T (modFiles f) :=
+  ⟨fun w hi => ⟨hi, ⟨[], by simp [Flow.modFiles], by simp⟩, fun _ _ => trivial⟩⟩
+
+theorem SatB.freshKey {A c : Nat} : SatB A c 0 T freshKey :=
+  ⟨fun w hi => ⟨hi, ⟨[], by simp [Flow.freshKey], by simp⟩, fun _ _ => trivial⟩⟩
+
+theorem SatB.hookGroup {A c : Nat} (ty : HookKind) : SatB A c 0 T (hookGroup ty) :=
+  ⟨fun w hi => by
+    unfold Flow.hookGroup
+    cases w.hks with
+    | nil => exact ⟨hi, ⟨[], by simp, by simp⟩, fun _ _ => trivial⟩
+    | cons b rest => exact ⟨hi, ⟨[_], rfl, by simp [exCount, isExch]⟩, fun _ _ => trivial⟩⟩
+
+theorem SatB.exchange {A c : Nat} (k : ReqKind) (s : KeyId) :
+    SatB A c 1 (SizeOk A c) (exchange k s) :=
+  ⟨fun w hi => by
+    unfold Flow.exchange
+    cases hx : w.exs with
+    | nil => exact ⟨hi, ⟨[], by simp, by simp⟩, fun _ hb => by simp at hb⟩
+    | cons r rest =>
+      refine ⟨?_, ⟨[_], rfl, by simp [exCount, isExch]⟩, ?_⟩
+      · intro r' hr'
+        exact hi r' (by rw [hx]; exact List.mem_cons_of_mem _ hr')
+      · intro a ha
+        simp only [Out.val.injEq] at ha
+        rw [← ha]
+        exact hi r (by rw [hx]; exact List.mem_cons_self)⟩
+
+theorem SatB.bind {A c n1 n2 : Nat} {Q1 : α → Prop} {Q2 : β → Prop} {m : M α} {f : α → M β}
+    (hm : SatB A c n1 Q1 m) (hf : ∀ a, Q1 a → SatB A c n2 Q2 (f a)) :
+    SatB A c (n1 + n2) Q2 (m >>= f) := by
+  constructor
+  intro w hi
+  obtain ⟨i1, ⟨e1, he1, hc1⟩, q1⟩ := hm.run w hi
+  rcases bind_cases m f w with ⟨a, w1, x1, x2⟩ | ⟨x1, x2, x3⟩
+  · rw [x2]
+    rw [x1] at i1 he1 q1
+    obtain ⟨i2, ⟨e2, he2, hc2⟩, q2⟩ := (hf a (q1 a rfl)).run w1 i1
+    refine ⟨i2, ⟨e1 ++ e2, by rw [he2, he1]; simp, ?_⟩, q2⟩
+    rw [exCount_append]
+    exact Nat.add_le_add hc1 hc2
+  · rw [x3]
+    refine ⟨i1, ⟨e1, he1, Nat.le_trans hc1 (Nat.le_add_right _ _)⟩, ?_⟩
+    intro b hb
+    rw [hb] at x2
+    simp at x2
+    exact absurd x2.symm x1
+
+section Bounds
+variable {A c : Nat}
+
+theorem SatB.ite {n : Nat} {Q : α → Prop} {p : Prop} [Decidable p] {a b : M α}
+    (ha : SatB A c n Q a) (hb : SatB A c n Q b) : SatB A c n Q (if p then a else b) := by
+  split
+  · exact ha
+  · exact hb
+
+theorem SatB.writeFileHooks (step : Step) (act : M Unit) (h : SatB A c 0 T act) :
+    SatB A c 0 T (writeFileHooks step act) := by
+  unfold Flow.writeFileHooks
+  refine .le (.bind (.hookGroup _) fun pre _ => .ite ?_ (.failAt _)) (Nat.le_refl 0)
+  exact .le (.bind h fun _ _ => .bind (.hookGroup _) fun post _ =>
+    .ite (.pure _) (.failAt _)) (Nat.le_refl 0)
+
+theorem SatB.saveAccount : SatB A c 0 T saveAccount :=
+  .writeFileHooks _ _ (.emit _ rfl)
+
+theorem SatB.writeKey (k : KeyId) : SatB A c 0 T (writeKey k) :=
+  .writeFileHooks _ _ (.le (.bind (.modFiles _) fun _ _ => .emit _ rfl) (Nat.le_refl 0))
+
+theorem SatB.writeCert (x : CertContent) : SatB A c 0 T (writeCert x) :=
+  .writeFileHooks _ _ (.le (.bind (.modFiles _) fun _ _ => .emit _ rfl) (Nat.le_refl 0))
+
+theorem SatB.register : SatB A c 1 T register := by
+  unfold Flow.register
+  refine .le (.bind .getW fun w _ => .bind (.exchange _ _) fun r _ => (?_ : SatB A c 0 T _))
+    (Nat.le_refl 1)
+  split
+  · exact .ite (.le (.bind (.modAcc _) fun _ _ => .saveAccount) (Nat.le_refl 0)) (.failAt _)
+  · exact .failAt _
+
+theorem SatB.updateContacts : SatB A c 2 T updateContacts := by
+  unfold Flow.updateContacts
+  refine .le (.bind .getW fun w _ => .bind (.exchange _ _) fun r _ => (?_ : SatB A c 1 T _))
+    (Nat.le_refl 2)
+  split
+  · exact .le (.bind (.modAcc _) fun _ _ => .saveAccount) (by omega)
+  · exact .register
+  · exact .le (.failAt _) (by omega)
+
+theorem SatB.updateKey : SatB A c 2 T updateKey := by
+  unfold Flow.updateKey
+  refine .le (.bind .getW fun w _ => (?_ : SatB A c 2 T _)) (Nat.le_refl 2)
+  refine .ite ?_ (.le (.failAt _) (by omega))
+  refine .le (.bind (.exchange _ _) fun r _ => (?_ : SatB A c 1 T _)) (Nat.le_refl 2)
+  split
+  · exact .le (.bind (.modAcc _) fun _ _ => .saveAccount) (by omega)
+  · exact .register
+  · exact .le (.failAt _) (by omega)
+
+theorem SatB.synchronize (v : Variant) : SatB A c 4 T (synchronize v) := by
+  unfold Flow.synchronize
+  have hk : ∀ p : Prop, ∀ [Decidable p], SatB A c 2 T (if p then Flow.updateKey else Pure.pure ()) :=
+    fun p _ => .ite .updateKey (.le (.pure _) (by omega))
+  have hc : ∀ p : Prop, ∀ [Decidable p], SatB A c 2 T (if p then Flow.updateContacts else Pure.pure ()) :=
+    fun p _ => .ite .updateContacts (.le (.pure _) (by omega))
+  refine .le (.bind .getW fun w _ => (?_ : SatB A c 4 T _)) (by omega)
+  refine .ite (.ite (.ite ?_ ?_) ?_) (.le .register (by omega))
+  · exact .le (.bind (hk _) fun _ _ => hc _) (by omega)
+  · exact .le (.bind (hc _) fun _ _ => hk _) (by omega)
+  · exact .le (.bind .register fun _ _ => hc _) (by omega)
+
+theorem SatB.decodeNewOrder (r : ExRes) (hr : SizeOk A c r) :
+    SatB A c 0 (fun o : OrderBody => o.authzs.length ≤ A) (decodeNewOrder r) := by
+  unfold Flow.decodeNewOrder
+  split
+  · exact .ite (.pureQ _ hr) (.failAt _)
+  · exact .failAt _
+
+theorem SatB.newOrder : SatB A c 3 (fun o : OrderBody => o.authzs.length ≤ A) newOrder := by
+  unfold Flow.newOrder
+  refine .le (.bind .getW fun w _ => .bind (.exchange _ _) fun r hr =>
+    (?_ : SatB A c 2 _ _)) (by omega)
+  split
+  · exact .le (.bind .register fun _ _ => .bind .getW fun w2 _ => .bind (.exchange _ _)
+      fun r2 hr2 => .decodeNewOrder r2 hr2) (by omega)
+  · exact .le (.decodeNewOrder r hr) (by omega)
+
+theorem SatB.solveChallenges (ty : ChalType) (l : List (ChalType × Nat)) :
+    SatB A c l.length T (solveChallenges ty l) := by
+  induction l with
+  | nil => unfold Flow.solveChallenges; exact .pure _
+  | cons x rest ih =>
+    obtain ⟨t, ch⟩ := x
+    unfold Flow.solveChallenges
+    refine .ite ?_ (.le ih (by simp))
+    refine .le (.bind (.hookGroup _) fun ok _ => (?_ : SatB A c (rest.length + 1) T _)) (by simp)
+    refine .ite ?_ (.le (.failAt _) (by omega))
+    refine .le (.bind .getW fun w _ => .bind (.exchange _ _) fun r _ =>
+      (?_ : SatB A c rest.length T _)) (by omega)
+    split
+    · exact .le (.bind ih fun cs _ => .pure _) (by omega)
+    · exact .le (.failAt _) (by omega)
+
+theorem SatB.pollAuthz (a n : Nat) : SatB A c n T (pollAuthz a n) := by
+  induction n with
+  | zero => unfold Flow.pollAuthz; exact .failAt _
+  | succ n ih =>
+    unfold Flow.pollAuthz
+    refine .le (.bind .getW fun w _ => .bind (.exchange _ _) fun r _ =>
+      (?_ : SatB A c n T _)) (by omega)
+    split
+    · exact .ite (.le (.pure _) (by omega)) ih
+    · exact .le (.failAt _) (by omega)
+
+theorem SatB.cleanHooks (l : List Nat) : SatB A c 0 T (cleanHooks l) := by
+  induction l with
+  | nil => unfold Flow.cleanHooks; exact .pure _
+  | cons x rest ih =>
+    unfold Flow.cleanHooks
+    exact .le (.bind (.hookGroup _) fun ok _ => .ite ih (.failAt _)) (Nat.le_refl 0)
+
+theorem SatB.pollOrder (want : OrderStatus) (st : Step) (n : Nat) :
+    SatB A c n T (pollOrder want st n) := by
+  induction n with
+  | zero => unfold Flow.pollOrder; exact .failAt _
+  | succ n ih =>
+    unfold Flow.pollOrder
+    refine .le (.bind .getW fun w _ => .bind (.exchange _ _) fun r _ =>
+      (?_ : SatB A c n T _)) (by omega)
+    split
+    · exact .ite (.le (.pure _) (by omega)) ih
+    · exact .le (.failAt _) (by omega)
+
+/-- Per authorisation: the fetch, one "ready" POST per offered challenge at most, the poll. -/
+theorem SatB.processAuthz (cfg : Cfg) (a : Nat) :
+    SatB A c (1 + c + Gen.DEFAULT_POOL_NB_TRIES) T (processAuthz cfg a) := by
+  unfold Flow.processAuthz
+  refine .le (.bind .getW fun w _ => .bind (.exchange _ _) fun r hr =>
+    (?_ : SatB A c (c + Gen.DEFAULT_POOL_NB_TRIES) T _)) (by omega)
+  split
+  · rename_i b
+    refine .ite (.le (.pure _) (by omega)) (.ite (.le (.failAt _) (by omega)) ?_)
+    split
+    · exact .le (.failAt _) (by omega)
+    · have hb : b.challenges.length ≤ c := hr
+      exact .le (.bind (.solveChallenges _ b.challenges) fun cs _ =>
+        .bind (.pollAuthz a _) fun _ _ => .cleanHooks cs) (by omega)
+  · exact .le (.failAt _) (by omega)
+
+theorem SatB.processAuthzs (cfg : Cfg) (l : List Nat) :
+    SatB A c (l.length * (1 + c + Gen.DEFAULT_POOL_NB_TRIES)) T (processAuthzs cfg l) := by
+  induction l with
+  | nil => unfold Flow.processAuthzs; exact .le (.pure _) (by omega)
+  | cons x rest ih =>
+    unfold Flow.processAuthzs
+    refine .le (.bind (.processAuthz cfg x) fun _ _ => ih) ?_
+    simp only [List.length_cons, Nat.succ_mul]
+    omega
+
+theorem SatB.refreshDirectory : SatB A c 1 T refreshDirectory := by
+  unfold Flow.refreshDirectory
+  refine .le (.bind (.exchange _ _) fun r _ => (?_ : SatB A c 0 T _)) (Nat.le_refl 1)
+  split
+  · exact .pure _
+  · exact .failAt _
+
+theorem SatB.prepareM (v : Variant) (cfg : Cfg) :
+    SatB A c (8 + Gen.DEFAULT_POOL_NB_TRIES + A * (1 + c + Gen.DEFAULT_POOL_NB_TRIES)) T
+      (prepareM v cfg) := by
+  unfold Flow.prepareM
+  refine .le (.bind .refreshDirectory fun _ _ => .bind (.synchronize v) fun _ _ =>
+    .bind .newOrder fun o ho => (?_ : SatB A c (A * (1 + c + Gen.DEFAULT_POOL_NB_TRIES)
+      + Gen.DEFAULT_POOL_NB_TRIES) T _)) (by omega)
+  refine .le (.bind (.processAuthzs cfg o.authzs) fun _ _ =>
+    .bind (.pollOrder _ _ _) fun _ _ => .pure _) ?_
+  have := Nat.mul_le_mul_right (1 + c + Gen.DEFAULT_POOL_NB_TRIES) ho
+  omega
+
+theorem SatB.getKeyPair (cfg : Cfg) : SatB A c 0 T (getKeyPair cfg) := by
+  have hg : SatB A c 0 T genKey :=
+    .le (.bind .freshKey fun k _ => .bind (.emit _ rfl) fun _ _ => .pure _) (Nat.le_refl 0)
+  unfold Flow.getKeyPair
+  refine .le (.bind .getW fun w _ => (?_ : SatB A c 0 T _)) (Nat.le_refl 0)
+  refine .ite ?_ hg
+  split
+  · exact .le (.bind (.emit _ rfl) fun _ _ => .pure _) (Nat.le_refl 0)
+  · exact hg
+
+theorem SatB.finalizeOrder : SatB A c (1 + Gen.DEFAULT_POOL_NB_TRIES) T finalizeOrder := by
+  unfold Flow.finalizeOrder
+  refine .le (.bind .getW fun w _ => .bind (.exchange _ _) fun r _ =>
+    (?_ : SatB A c Gen.DEFAULT_POOL_NB_TRIES T _)) (by omega)
+  split
+  · exact .le (.bind (.pollOrder _ _ _) fun o _ => .ite (.pure _) (.failAt _)) (by omega)
+  · exact .le (.failAt _) (by omega)
+
+theorem SatB.fetchPre (v : Variant) (k : KeyId) (isNew : Bool) :
+    SatB A c (1 + Gen.DEFAULT_POOL_NB_TRIES) T (fetchPre v k isNew) := by
+  unfold Flow.fetchPre
+  exact .le (.bind (.ite (.writeKey k) (.pure _)) fun _ _ => .bind (.emit _ rfl) fun _ _ =>
+    .finalizeOrder) (by omega)
+
+theorem SatB.downloadCert : SatB A c 1 T downloadCert := by
+  unfold Flow.downloadCert
+  refine .le (.bind .getW fun w _ => .bind (.exchange _ _) fun r _ => (?_ : SatB A c 0 T _))
+    (Nat.le_refl 1)
+  split
+  · exact .pure _
+  · exact .failAt _
+
+theorem SatB.checkBody (v : Variant) (k : KeyId) (cb : CertBody) :
+    SatB A c 0 T (checkBody v k cb) := by
+  unfold Flow.checkBody
+  refine .ite ?_ (.pure _)
+  split
+  · exact .failAt _
+  · exact .ite (.pure _) (.failAt _)
+
+theorem SatB.install (v : Variant) (k : KeyId) (isNew : Bool) (x : CertContent) :
+    SatB A c 0 T (install v k isNew x) := by
+  unfold Flow.install
+  exact .le (.bind (.ite (.writeKey k) (.pure _)) fun _ _ => .writeCert x) (Nat.le_refl 0)
+
+/-- The bound: `10 + 2·P + A·(1 + c + P)` exchanges, `P` = `DEFAULT_POOL_NB_TRIES`. -/
+def attemptBound (A c : Nat) : Nat :=
+  10 + 2 * Gen.DEFAULT_POOL_NB_TRIES + A * (1 + c + Gen.DEFAULT_POOL_NB_TRIES)
+
+theorem SatB.attemptM (v : Variant) (cfg : Cfg) :
+    SatB A c (attemptBound A c) T (attemptM v cfg) := by
+  unfold Flow.attemptM obtainM attemptBound
+  exact .le (.bind (.bind (.prepareM v cfg) fun _ _ => .bind (.getKeyPair cfg) fun p _ =>
+    .bind (.fetchPre v p.1 p.2) fun _ _ => .bind .downloadCert fun cb _ =>
+    .bind (.checkBody v p.1 cb) fun x _ => .pure _) fun q _ => .install v q.1 q.2.1 q.2.2)
+    (by omega)
+end Bounds
+
+/-! ### Installation seen on the trace (C07 `success_iff_installed`) -/
+
+def NoCertWrite : Ev → Prop
+  | .writeCert _ => False
+  | _ => True
+
+theorem NoCertWrite.obtainM (v : Variant) (cfg : Cfg) :
+    Sat (TR (AllEv NoCertWrite)) (obtainM v cfg) :=
+  AllEv.obtainM NoCertWrite v cfg
+    (fun e h => by cases e <;> simp_all [APrep, NoCertWrite])
+    (fun k n e h => by cases e <;> simp_all [AFetch, NoCertWrite])
+    (fun _ => trivial) (fun _ => trivial) (fun _ _ => trivial)
+
+/-- A file write that failed ends the trace with a failed file hook. -/
+theorem WriteOut.failed_last {step upd e w o w' s} (h : WriteOut step upd e w o w')
+    (ho : o.tag = .failed s) :
+    w'.trace.getLast? = some (.hooks .filePre false) ∨
+    w'.trace.getLast? = some (.hooks .filePost false) := by
+  obtain ⟨_, _, _, _, _, h | h | h | ⟨b, h⟩⟩ := h
+  · rw [h.1] at ho; simp at ho
+  · left; rw [h.2.2]; simp
+  · rw [h.1] at ho; simp at ho
+  · cases b
+    · right; rw [h.2.2]; simp
+    · rw [h.1] at ho; simp at ho
+
+theorem install_failed_last (v : Variant) (k : KeyId) (isNew : Bool) (c : CertContent) (w : World)
+    (s : Step) (ho : (install v k isNew c w).1.tag = .failed s) :
+    (install v k isNew c w).2.trace.getLast? ≠ some (.hooks .filePost true) := by
+  have key : ∀ tr : List Ev, (tr.getLast? = some (.hooks .filePre false) ∨
+      tr.getLast? = some (.hooks .filePost false)) → tr.getLast? ≠ some (.hooks .filePost true) := by
+    intro tr h
+    rcases h with h | h <;> rw [h] <;> simp
+  rcases install_out v k isNew c w with ⟨_, h⟩ | ⟨_, o1, w1, h1, ⟨_, h2⟩ | ⟨_, h2, h3⟩⟩
+  · exact key _ (h.failed_last ho)
+  · exact key _ (h2.failed_last ho)
+  · rw [h3]
+    rw [h2] at ho
+    exact key _ (h1.failed_last ho)
+
+/-! ### The per-certificate loop -/
+
+def isSched : LoopEv → Bool
+  | .scheduled _ => true
+  | .scheduleErr _ => true
+  | _ => false
+
+theorem scheduleLoop_events (files : Files) (ins : List SchedIn) :
+    ∀ retries evs rest, scheduleLoop files retries ins = some (evs, rest) →
+      ∀ e ∈ evs, isSched e = true := by
+  induction ins with
+  | nil =>
+    intro retries evs rest h
+    unfold scheduleLoop at h
+    split at h
+    · simp only [Option.some.injEq, Prod.mk.injEq] at h
+      rw [← h.1]; simp [isSched]
+    · simp at h
+  | cons i tl ih =>
+    intro retries evs rest h
+    unfold scheduleLoop at h
+    split at h
+    · simp only [Option.some.injEq, Prod.mk.injEq] at h
+      rw [← h.1]; simp [isSched]
+    · simp only at h
+      split at h
+      · simp only [Option.some.injEq, Prod.mk.injEq] at h
+        rw [← h.1]; simp [isSched]
+      · split at h
+        · simp at h
+        · rename_i evs' rest' hrec
+          simp only [Option.some.injEq, Prod.mk.injEq] at h
+          rw [← h.1]
+          intro e he
+          rcases List.mem_cons.mp he with rfl | he
+          · rfl
+          · exact ih _ _ _ hrec e he
+
+/-- Shape of one round of `renew_certificate`. -/
+theorem renewOnce_shape {v : Variant} {fw : Nat} {cfg : Cfg} {w w' : World} {evs : List LoopEv}
+    (h : renewOnce v fw cfg w = some (evs, w')) :
+    ∃ sevs scheds' r tr w1 hk hks',
+      scheduleLoop w.files 0 w.scheds = some (sevs, scheds') ∧
+      attempt v cfg { w with scheds := scheds' } = (r, tr, w1) ∧
+      r ≠ .stuck ∧ w1.hks = hk :: hks' ∧ w' = { w1 with hks := hks' } ∧
+      evs = sevs ++ [.attempt r tr, .postOp (r == .ok) hk] ++
+        (if (!(r == .ok) && v.pauseAfterFail) = true then [.pause fw] else []) := by
+  unfold renewOnce at h
+  split at h
+  · simp at h
+  · rename_i sevs scheds' hs
+    rcases ha : attempt v cfg { w with scheds := scheds' } with ⟨r, tr, w1⟩
+    simp only [ha] at h
+    split at h
+    · simp at h
+    · rename_i hne
+      split at h
+      · simp at h
+      · rename_i hk hks' hh
+        simp only [Option.some.injEq, Prod.mk.injEq] at h
+        exact ⟨sevs, scheds', r, tr, w1, hk, hks', hs, ha, fun e => hne e, hh, h.2.symm, h.1.symm⟩
+
+theorem renewLoop_mem {v : Variant} {fw : Nat} {cfg : Cfg} {round : List LoopEv} :
+    ∀ n w, round ∈ renewLoop v fw cfg n w → ∃ w0 w', renewOnce v fw cfg w0 = some (round, w') := by
+  intro n
+  induction n with
+  | zero => intro w h; simp [renewLoop] at h
+  | succ n ih =>
+    intro w h
+    unfold renewLoop at h
+    split at h
+    · simp at h
+    · rename_i evs w' hr
+      rcases List.mem_cons.mp h with rfl | h
+      · exact ⟨w, w', hr⟩
+      · exact ih w' h
+
+theorem attempt_result_tag (v : Variant) (cfg : Cfg) (w : World) :
+    (attempt v cfg w).1 = (attemptM v cfg { w with trace := [] }).1.tag :=
+  Out.result_eq_tag _
+
 end AcmedVerif.Flow
